@@ -1,7 +1,478 @@
 import Nv.Model.C16
-/-! C16 — property theorems (work in progress). -/
+import Nv.Proofs.C16Sess
+import Nv.Proofs.C16Term
+import Nv.Proofs.C16Flush
+import Nv.Proofs.C16World
+/-!
+C16 — property theorems for `stcp.Session`, `SessionMgr.count` and the accept loop (model: `Nv.Model.C16`).
+
+Every statement quantifies over all reachable states of the transition systems, i.e. over every schedule of the
+two loops, every order and combination of terminating events, any number of queued sends, any number of sessions and
+connection attempts; `c` ranges over the proved configurations. Below the transition level the behaviour of the OS
+(`net.Conn`, deadlines, the Go scheduler) is assumed — see docs/C16.md. For the configuration extracted from
+today's source (`emptySend = quits`) the flush theorem is false: `witness_emptySend_quits`.
+-/
 namespace Nv.C16
 
+/-! ### one session: single exit -/
+
+/-- the exit callback, the count decrement and the connection close each happen at most once, in every reachable state -/
+theorem sess_exit_at_most_once {c : Cfg} (hc : Proved c) (s : Sess) (hr : (sessLTS c).Reach s) :
+    s.exits ≤ 1 ∧ s.decs ≤ 1 ∧ s.closes ≤ 1 := by
+  obtain ⟨h1, h2, h3, _⟩ := sinv_reach hc s hr
+  cases ho : s.onceDone <;> simp [ho] at h1 <;> omega
+
+/-- … and they happen together: all three counters equal 1 once the exit once has fired, 0 before; a loop that has
+    stopped has run `quit`; no panic escapes -/
+theorem sess_exit_together {c : Cfg} (hc : Proved c) (s : Sess) (hr : (sessLTS c).Reach s) :
+    s.exits = (if s.onceDone then 1 else 0) ∧ s.decs = s.exits ∧ s.closes = s.exits ∧
+    (s.sendPc = .done → s.onceDone = true) ∧ (s.recvPc = .done → s.onceDone = true) ∧ s.crashed = false := by
+  obtain ⟨h1, h2, h3, _, h5, h6, h7⟩ := sinv_reach hc s hr
+  exact ⟨h1, h2, h3, h5, h6, h7⟩
+
+/-! ### one session: terminal states -/
+
+/-- In every reachable state in which neither loop can move, the session is either over — exit callback ran exactly
+    once, count given back exactly once, connection closed, both loops stopped — or it is still fully alive and
+    waiting: nothing has been released, the read loop is blocked on an open connection, and the send loop is parked on
+    an empty open queue or blocked writing to a peer that does not read. -/
+theorem sess_terminal_state {c : Cfg} (hc : Proved c) (s : Sess) (hr : (sessLTS c).Reach s) (hq : quiescent c s) :
+    ended s ∨ waiting s := by
+  rw [quiescent_proved hc] at hq
+  exact quiescentP_cases (sinv_reach hc s hr) hq.1 hq.2
+
+/-- whatever ends it: once any terminating condition holds, a quiescent state is an ended one. The conditions are
+    stable (`terminating_condition_stable`), so this is "after the event, as soon as the loops have run". -/
+theorem sess_terminating_event_ends {c : Cfg} (hc : Proved c) (s : Sess) (hr : (sessLTS c).Reach s) (hq : quiescent c s)
+    (hev : s.recvPc ≠ .reading                                  -- read error / timeout / handler error / panic
+        ∨ s.peerClosed = true                                   -- peer close
+        ∨ s.closes ≠ 0
+        ∨ (s.qClosed = true ∧ (s.peerDrain = true ∨ ∀ x, s.sendPc ≠ .writing x))   -- local Close, write not blocked
+        ∨ (s.wfault = true ∧ ∃ x, s.sendPc = .writing x)) :     -- write error / timeout while writing
+    ended s := by
+  rcases sess_terminal_state hc s hr hq with h | ⟨_, _, _, w4, w5, w6, w7⟩
+  · exact h
+  · exfalso
+    rcases hev with h | h | h | ⟨h, h'⟩ | ⟨h, x, h'⟩
+    · exact h w5
+    · simp [w6] at h
+    · exact h w4
+    · rcases w7 with ⟨_, _, a3⟩ | ⟨x, a1, a2, _⟩
+      · simp [a3] at h
+      · rcases h' with h' | h'
+        · simp [a2] at h'
+        · exact h' x a1
+    · rcases w7 with ⟨a1, _, _⟩ | ⟨y, _, _, a3⟩
+      · simp [a1] at h'
+      · simp [a3] at h
+
+/-- the terminating conditions never go away again -/
+theorem terminating_condition_stable {c : Cfg} (hc : Proved c) {s s' : Sess} {a : Act} (hs : step c s a = some s') :
+    (s.recvPc ≠ .reading → s'.recvPc ≠ .reading) ∧ (s.peerClosed = true → s'.peerClosed = true) ∧
+    (s.qClosed = true → s'.qClosed = true) ∧ (s.wfault = true → s'.wfault = true) ∧ (s.closes ≠ 0 → s'.closes ≠ 0) := by
+  have hq := quitP_same s
+  have hqc : s.closes ≠ 0 → (quitP s).closes ≠ 0 := by unfold quitP; split <;> simp <;> omega
+  cases a with
+  | env e =>
+    simp only [step, Option.some.injEq] at hs; subst hs
+    cases e <;> simp only [envStep] <;> (try split) <;> simp_all
+  | sendStep =>
+    rw [step, sendStep_proved hc] at hs
+    unfold sendStepP at hs
+    split at hs
+    · split at hs
+      · split at hs <;> cases hs; simp
+      · split at hs <;> (cases hs; simp)
+    · split at hs
+      · cases hs; simp
+      · split at hs <;> cases hs; simp
+    · cases hs; simp only; exact ⟨by simp [hq.2.2.1], by simp [hq.2.2.2.2.2.1], hq.2.2.2.2.2.2.2.2.2.1, by simp [hq.2.2.2.2.2.2.1], hqc⟩
+    · cases hs
+  | recvStep =>
+    rw [step, recvStep_proved hc] at hs
+    unfold recvStepP at hs
+    split at hs
+    · split at hs <;> cases hs; simp
+    · cases hs; simp only; exact ⟨by simp, by simp [hq.2.2.2.2.2.1], hq.2.2.2.2.2.2.2.2.2.1, by simp [hq.2.2.2.2.2.2.1], hqc⟩
+    · cases hs
+
+/-! ### one session: progress -/
+
+def Act.internal : Act → Bool
+  | .sendStep | .recvStep => true
+  | .env _ => false
+
+/-- every loop step strictly decreases `measure s = 2·|queue| + weights ≤ 2·|queue| + 5` -/
+theorem sess_progress {c : Cfg} (hc : Proved c) {s s' : Sess} {a : Act} (ha : a.internal = true)
+    (hs : step c s a = some s') : measure s' < measure s := by
+  cases a with
+  | env e => simp [Act.internal] at ha
+  | sendStep => rw [step, sendStep_proved hc] at hs; exact measure_sendStepP hs
+  | recvStep => rw [step, recvStep_proved hc] at hs; exact measure_recvStepP hs
+
+theorem measure_le (s : Sess) : measure s ≤ 2 * s.q.length + 5 := by
+  unfold measure
+  cases s.sendPc <;> cases s.recvPc <;> simp [SendPc.weight, RecvPc.weight] <;> omega
+
+/-- hence without new environment events the loops take at most `2·queued + 5` more steps (no livelock) -/
+theorem sess_internal_run_bounded {c : Cfg} (hc : Proved c) : ∀ (as : List Act) (s s' : Sess),
+    (∀ a ∈ as, a.internal = true) → (sessLTS c).run s as = some s' → as.length + measure s' ≤ measure s
+  | [], s, s', _, h => by simp [LTS.run] at h; subst h; simp
+  | a :: as, s, s', hi, h => by
+    simp only [LTS.run] at h
+    cases h1 : (sessLTS c).step s a with
+    | none => simp [h1] at h
+    | some s1 =>
+      simp only [h1] at h
+      have := sess_progress hc (hi a (by simp)) h1
+      have := sess_internal_run_bounded hc as s1 s' (fun b hb => hi b (by simp [hb])) h
+      simp; omega
+
+/-- running the loops until nothing moves (what the correspondence does after each event) ends in a quiescent,
+    reachable state -/
+theorem settle_quiescent {c : Cfg} (hc : Proved c) (s : Sess) : quiescent c (settle c s) :=
+  settleN_quiescent hc (measure s) s (Nat.le_refl _)
+
+theorem settle_reach {c : Cfg} (s : Sess) (hr : (sessLTS c).Reach s) : (sessLTS c).Reach (settle c s) :=
+  settleN_reach _ s hr
+
+theorem event_reach {c : Cfg} (s : Sess) (e : Env) (hr : (sessLTS c).Reach s) : (sessLTS c).Reach (event c s e) :=
+  settle_reach _ (LTS.Reach.step (a := Act.env e) hr rfl)
+
+theorem events_reach {c : Cfg} : ∀ (es : List Env) (s : Sess), (sessLTS c).Reach s → (sessLTS c).Reach (events c s es)
+  | [], _, hr => hr
+  | e :: es, s, hr => by
+    simp only [events, List.foldl_cons]
+    exact events_reach es _ (event_reach s e hr)
+
+/-- after a peer close, a failing read, a handler error or a handler panic, the settled session is over -/
+theorem event_ends_session {c : Cfg} (hc : Proved c) (s : Sess) (hr : (sessLTS c).Reach s) (e : Env)
+    (he : e = .peerClose ∨ ((e = .readFail ∨ e = .handlerPanic) ∧ s.recvPc = .reading)) :
+    ended (event c s e) ∨ ended s := by
+  left
+  apply sess_terminating_event_ends hc _ (event_reach s e hr) (settle_quiescent hc _)
+  have key : ∀ (n : Nat) (t : Sess), (t.recvPc ≠ .reading ∨ t.peerClosed = true) →
+      ((settleN c n t).recvPc ≠ .reading ∨ (settleN c n t).peerClosed = true) := by
+    intro n
+    induction n with
+    | zero => intro t h; exact h
+    | succ n ih =>
+      intro t h
+      simp only [settleN]
+      cases h1 : sendStep c t with
+      | some t' =>
+        have st := terminating_condition_stable hc (a := Act.sendStep) (s := t) h1
+        exact ih t' (h.imp st.1 st.2.1)
+      | none =>
+        simp only
+        cases h2 : recvStep c t with
+        | some t' =>
+          have st := terminating_condition_stable hc (a := Act.recvStep) (s := t) h2
+          exact ih t' (h.imp st.1 st.2.1)
+        | none => exact h
+  have h0 : (envStep s e).recvPc ≠ .reading ∨ (envStep s e).peerClosed = true := by
+    rcases he with he | ⟨he | he, hrd⟩ <;> subst he <;> simp [envStep, *]
+  rcases key _ _ h0 with h | h
+  · exact Or.inl h
+  · exact Or.inr (Or.inl h)
+
+/-! ### one session: flush before local close -/
+
+/-- the peer reads a prefix of what `Send` accepted: in order, nothing duplicated or invented — in every reachable state -/
+theorem all_inv_reach {c : Cfg} (hc : Proved c) : ∀ s, (sessLTS c).Reach s → SInv s ∧ GInv s ∧ FOk s :=
+  (sessLTS c).inv_of_step (fun s => SInv s ∧ GInv s ∧ FOk s) ⟨sinv_init, ginv_init, fok_init⟩ (by
+    intro s a s' ih hs
+    have hs' : step c s a = some s' := hs
+    refine ⟨sinv_step hc ih.1 hs', ?_, ?_⟩
+    · cases a with
+      | env e => simp only [step, Option.some.injEq] at hs'; subst hs'; exact ginv_env ih.2.1 e
+      | sendStep => rw [step, sendStep_proved hc] at hs'; exact ginv_sendStepP ih.2.1 hs'
+      | recvStep => rw [step, recvStep_proved hc] at hs'; exact ginv_recvStepP ih.2.1 hs'
+    · cases a with
+      | env e => simp only [step, Option.some.injEq] at hs'; subst hs'; exact fok_env ih.2.2 e
+      | sendStep => rw [step, sendStep_proved hc] at hs'; exact fok_sendStepP ih.1 ih.2.1 ih.2.2 hs'
+      | recvStep => rw [step, recvStep_proved hc] at hs'; exact fok_recvStepP ih.1 ih.2.2 hs')
+
+/-- the peer reads a prefix of what `Send` accepted: in order, nothing duplicated or invented — in every reachable state -/
+theorem delivered_in_order {c : Cfg} (hc : Proved c) (s : Sess) (hr : (sessLTS c).Reach s) :
+    s.delivered <+: s.accepted.flatten := (all_inv_reach hc s hr).2.1.pref
+
+/-- Flush before local close: in every reachable state in which no terminating event other than a local `Close`
+    has happened (no peer close, no failing read or write, no handler panic), if the connection is closed then the
+    peer has read *all* bytes `Send` accepted, in order. (The connection is closed by `quit` only, so this holds at
+    the moment of closing.) Nothing is accepted after the local Close: `no_accept_after_close`. -/
+theorem flush_before_close {c : Cfg} (hc : Proved c) (s : Sess) (hr : (sessLTS c).Reach s)
+    (hf : s.faulted = false) (hcl : s.closes ≠ 0) : s.delivered = s.accepted.flatten := by
+  obtain ⟨hS, _, hF⟩ := all_inv_reach hc s hr
+  obtain ⟨_, _, f3, f4⟩ := hF hf
+  exact (f4 (f3 (once_of_closes hS hcl))).1
+
+/-- … and until then nothing is lost either: while the send loop runs, delivered ++ in-flight ++ queued = accepted -/
+theorem nothing_lost_while_sending {c : Cfg} (hc : Proved c) (s : Sess) (hr : (sessLTS c).Reach s)
+    (hl : sendLooping s) : s.delivered ++ inflight s ++ s.q.flatten = s.accepted.flatten :=
+  (all_inv_reach hc s hr).2.1.pending hl
+
+theorem no_accept_after_close (s : Sess) (bs : List Nat) (h : s.qClosed = true) :
+    sendAccepted s = false ∧ (envStep s (.send bs)).accepted = s.accepted := by
+  simp [sendAccepted, envStep, h]
+
+/-- the events that do not set `faulted` -/
+def Act.benign : Act → Bool
+  | .env (.send _) | .env .close | .env .peerDrain | .env .peerHold | .env .peerData | .sendStep | .recvStep => true
+  | _ => false
+
+/-- trace form: along any run made only of sends, local closes, the peer reading or pausing, handler data and loop
+    steps — in any order and number — a closed connection means everything accepted was delivered, in order -/
+theorem flush_before_close_trace {c : Cfg} (hc : Proved c) (as : List Act) (s : Sess)
+    (hb : ∀ a ∈ as, a.benign = true) (hrun : (sessLTS c).run Sess.init as = some s) (hcl : s.closes ≠ 0) :
+    s.delivered = s.accepted.flatten := by
+  have hr : (sessLTS c).Reach s := LTS.reach_of_run _ as _ _ LTS.Reach.init hrun
+  apply flush_before_close hc s hr _ hcl
+  have key : ∀ (as : List Act) (t t' : Sess), (∀ a ∈ as, a.benign = true) → t.faulted = false →
+      (sessLTS c).run t as = some t' → t'.faulted = false := by
+    intro as
+    induction as with
+    | nil => intro t t' _ h0 h; simp [LTS.run] at h; subst h; exact h0
+    | cons a as ih =>
+      intro t t' hb h0 h
+      simp only [LTS.run] at h
+      cases h1 : (sessLTS c).step t a with
+      | none => simp [h1] at h
+      | some t1 =>
+        simp only [h1] at h
+        refine ih t1 t' (fun b hb' => hb b (by simp [hb'])) ?_ h
+        have hba := hb a (by simp)
+        have hq := quitP_same t
+        cases a with
+        | env e =>
+          simp only [sessLTS, step, Option.some.injEq] at h1; subst h1
+          cases e <;> simp [Act.benign] at hba <;> simp only [envStep] <;> (try split) <;> simp [h0]
+        | sendStep =>
+          simp only [sessLTS] at h1; rw [step, sendStep_proved hc] at h1
+          unfold sendStepP at h1
+          split at h1
+          · split at h1
+            · split at h1 <;> cases h1; simp [h0]
+            · split at h1 <;> (cases h1; simp [h0])
+          · split at h1
+            · cases h1; simp [h0]
+            · split at h1 <;> cases h1; simp [h0]
+          · cases h1; simp [hq.2.2.2.2.2.2.2.1, h0]
+          · cases h1
+        | recvStep =>
+          simp only [sessLTS] at h1; rw [step, recvStep_proved hc] at h1
+          unfold recvStepP at h1
+          split at h1
+          · split at h1 <;> cases h1; simp [h0]
+          · cases h1; simp [hq.2.2.2.2.2.2.2.1, h0]
+          · cases h1
+  exact key as Sess.init s hb rfl hrun
+
+/-! ### many sessions: the manager's count and the accept loop -/
+
+/-- every session of a reachable world is in a reachable state of the one-session system, so all theorems above
+    hold for each of any number of simultaneous sessions -/
+theorem world_sess_reach {c : Cfg} (max : Int) : ∀ w, (worldLTS c max).Reach w →
+    w.max = max ∧ ∀ s ∈ w.sess, (sessLTS c).Reach s :=
+  (worldLTS c max).inv_of_step (fun w => w.max = max ∧ ∀ s ∈ w.sess, (sessLTS c).Reach s)
+    ⟨rfl, by intro s hs; simp [worldLTS] at hs⟩ (by
+    intro w a w' ih hs
+    have hs' : wstep c w a = some w' := hs
+    cases a with
+    | connect =>
+      simp only [wstep] at hs'
+      split at hs'
+      · cases hs'; exact ih
+      · cases hs'
+        refine ⟨ih.1, ?_⟩
+        intro s hm
+        rcases List.mem_append.1 hm with hm | hm
+        · exact ih.2 s hm
+        · simp at hm; subst hm; exact LTS.Reach.init
+    | sess k a =>
+      simp only [wstep] at hs'
+      split at hs'
+      · cases hs'
+      · rename_i s0 hk
+        split at hs'
+        · cases hs'
+        · rename_i s1 hst
+          cases hs'
+          refine ⟨ih.1, ?_⟩
+          intro s hm
+          rcases List.mem_or_eq_of_mem_set hm with hm | hm
+          · exact ih.2 s hm
+          · subst hm
+            exact LTS.Reach.step (ih.2 s0 (List.mem_of_getElem? hk)) hst)
+
+/-- balanced count: in every reachable world the count equals the number of sessions whose exit has not fired —
+    each session adds one at `Start` and gives exactly that one back, whatever ends it -/
+theorem count_balanced {c : Cfg} (hc : Proved c) (max : Int) (w : World) (hr : (worldLTS c max).Reach w) :
+    w.count = (aliveNum w.sess : Int) :=
+  liveCount_eq_alive w.sess (fun s hs => sinv_reach hc s ((world_sess_reach max w hr).2 s hs))
+
+theorem count_nonneg {c : Cfg} (hc : Proved c) (max : Int) (w : World) (hr : (worldLTS c max).Reach w) : 0 ≤ w.count := by
+  rw [count_balanced hc max w hr]; omega
+
+/-- the count never exceeds the configured maximum -/
+theorem count_le_max {c : Cfg} (hc : Proved c) (max : Int) (hmax : 0 ≤ max) (w : World)
+    (hr : (worldLTS c max).Reach w) : w.count ≤ max := by
+  have key : ∀ w, (worldLTS c max).Reach w → w.max = max ∧ w.count ≤ max :=
+    (worldLTS c max).inv_of_step (fun w => w.max = max ∧ w.count ≤ max)
+      ⟨rfl, by simpa [worldLTS, World.count, liveCount] using hmax⟩ (by
+      intro w a w' ih hs
+      have hs' : wstep c w a = some w' := hs
+      cases a with
+      | connect =>
+        simp only [wstep] at hs'
+        split at hs'
+        · cases hs'; exact ih
+        · rename_i hfull
+          cases hs'
+          refine ⟨ih.1, ?_⟩
+          simp only [full, hc.2.2.2.2.2.2.2.2.2.2, Bool.not_eq_true, decide_eq_false_iff_not] at hfull
+          simp only [World.count, liveCount_append] at hfull ⊢
+          simp [Sess.init]; omega
+      | sess k a =>
+        simp only [wstep] at hs'
+        split at hs'
+        · cases hs'
+        · rename_i s0 hk
+          split at hs'
+          · cases hs'
+          · rename_i s1 hst
+            cases hs'
+            refine ⟨ih.1, ?_⟩
+            have hm := decs_mono_P hc hst
+            have := liveCount_set w.sess k s0 s1 hk
+            simp only [World.count] at ih ⊢
+            omega)
+  exact (key w hr).2
+
+/-- with a negative maximum nothing is ever admitted -/
+theorem negative_max_admits_nothing {c : Cfg} (hc : Proved c) (max : Int) (hmax : max < 0) (w : World)
+    (hr : (worldLTS c max).Reach w) : w.sess = [] := by
+  have key : ∀ w, (worldLTS c max).Reach w → w.max = max ∧ w.sess = [] :=
+    (worldLTS c max).inv_of_step (fun w => w.max = max ∧ w.sess = []) ⟨rfl, rfl⟩ (by
+      intro w a w' ih hs
+      have hs' : wstep c w a = some w' := hs
+      cases a with
+      | connect =>
+        simp only [wstep] at hs'
+        split at hs'
+        · cases hs'; exact ih
+        · rename_i hfull
+          exfalso
+          simp only [full, hc.2.2.2.2.2.2.2.2.2.2, Bool.not_eq_true, decide_eq_false_iff_not] at hfull
+          simp only [World.count, ih.2, liveCount, ih.1] at hfull
+          omega
+      | sess k a => simp [wstep, ih.2] at hs')
+  exact (key w hr).2
+
+/-- surplus connections are closed on accept, and only those: the accept loop closes the new connection exactly
+    when the count has reached the maximum; otherwise it starts a session (count + 1, inside `Start`) -/
+theorem accept_decision {c : Cfg} (hc : Proved c) (w : World) :
+    wstep c w .connect =
+      if w.count ≥ w.max then some { w with rejected := w.rejected + 1 }
+      else some { w with sess := w.sess ++ [Sess.init] } := by
+  simp only [wstep, full, hc.2.2.2.2.2.2.2.2.2.2]
+  by_cases h : w.count ≥ w.max <;> simp [h]
+
+/-- when every session of a reachable world is quiescent, the count is exactly the number of sessions that are
+    still waiting: every ended session has returned the count to its previous value -/
+theorem count_at_quiescence {c : Cfg} (hc : Proved c) (max : Int) (w : World) (hr : (worldLTS c max).Reach w)
+    (hq : ∀ s ∈ w.sess, quiescent c s) :
+    (∀ s ∈ w.sess, ended s ∨ waiting s) ∧ w.count = ((w.sess.filter (fun s => !s.onceDone)).length : Int) := by
+  have hsr := (world_sess_reach max w hr).2
+  refine ⟨fun s hs => sess_terminal_state hc s (hsr s hs) (hq s hs), ?_⟩
+  rw [count_balanced hc max w hr]
+  have : ∀ l : List Sess, aliveNum l = (l.filter (fun s => !s.onceDone)).length := by
+    intro l
+    induction l with
+    | nil => rfl
+    | cons x xs ih => cases ho : x.onceDone <;> simp [aliveNum, ho, ih] <;> omega
+  rw [this]
+
+/-! ### non-vacuity: concrete reachable states satisfying the hypotheses -/
+
 example : Proved Cfg.good := by decide
+
+/-- a session ended by a handler panic after two sends: reachable, quiescent, ended -/
+example : let s := events Cfg.good Sess.init [.send [1, 2], .send [3], .peerData, .handlerPanic]
+    quiescent Cfg.good s ∧ ended s ∧ s.delivered = [1, 2, 3] ∧ s.faulted = true := by decide
+
+/-- local Close behind a blocked write and two queued items: not over while the peer does not read (`waiting`),
+    everything delivered in order once it does, then closed -/
+example : let s := events Cfg.good Sess.init [.peerHold, .send [1], .send [2, 3], .send [4], .close]
+    quiescent Cfg.good s ∧ ¬ ended s ∧ s.closes = 0 ∧ s.faulted = false := by decide
+example : let s := events Cfg.good Sess.init [.peerHold, .send [1], .send [2, 3], .send [4], .close, .send [9], .peerDrain]
+    ended s ∧ s.closes ≠ 0 ∧ s.faulted = false ∧ s.delivered = [1, 2, 3, 4] ∧ s.accepted = [[1], [2, 3], [4]] := by decide
+
+/-- three connection attempts against maxConn = 2, one session ends, a fourth attempt -/
+example : ((worldLTS Cfg.good 2).run { max := 2 }
+    [.connect, .connect, .connect, .sess 0 (.env .peerClose), .sess 0 .recvStep, .sess 0 .recvStep, .sess 0 .sendStep,
+     .sess 0 .sendStep, .connect]).map (fun w => (w.count, w.rejected, w.sess.length)) = some (2, 1, 3) := by decide
+
+/-! ### the configurations for which the property is false: concrete witnesses (replayed on the real code by
+    `c16 corr`, fixed cases tagged `witness`) -/
+
+/-- today's source: a zero-length item makes `loopSend` return; items accepted after it and before the local Close
+    are never written. Script: hold, send 6161, send -, send 6262, close, drain. -/
+theorem witness_emptySend_quits :
+    let c : Cfg := { Cfg.good with emptySend := .quits }
+    let s := events c Sess.init [.peerHold, .send [0x61, 0x61], .send [], .send [0x62, 0x62], .close, .peerDrain]
+    s.faulted = false ∧ s.closes ≠ 0 ∧ s.accepted.flatten = [0x61, 0x61, 0x62, 0x62] ∧ s.delivered = [0x61, 0x61] := by decide
+
+theorem not_flush_emptySend_quits :
+    ¬ (∀ s, (sessLTS { Cfg.good with emptySend := .quits }).Reach s → s.faulted = false → s.closes ≠ 0 →
+        s.delivered = s.accepted.flatten) := by
+  intro h
+  have := h (events { Cfg.good with emptySend := .quits } Sess.init
+      [.peerHold, .send [0x61, 0x61], .send [], .send [0x62, 0x62], .close, .peerDrain])
+    (events_reach _ _ LTS.Reach.init) (by decide) (by decide)
+  revert this; decide
+
+/-- `loopSend` popping with `Pop`: items still queued at the local Close are dropped -/
+theorem witness_pop_loses_queued :
+    let c : Cfg := { Cfg.good with sendPop := .pop }
+    let s := events c Sess.init [.peerHold, .send [1], .send [2], .close, .peerDrain]
+    s.faulted = false ∧ s.closes ≠ 0 ∧ s.accepted.flatten = [1, 2] ∧ s.delivered = [1] := by decide
+
+/-- `quit` without `exitOnce`: both loops run the body — OnExit twice, count −1 -/
+theorem witness_quit_without_once :
+    let c : Cfg := { Cfg.good with quitOnce := false }
+    let s := events c Sess.init [.close]
+    s.exits = 2 ∧ s.decs = 2 ∧ liveCount [s] = -1 := by decide
+
+/-- accept loop comparing with `>`: maxConn + 1 sessions -/
+theorem witness_accept_gt :
+    let c : Cfg := { Cfg.good with acceptCmp := .gt }
+    ((worldLTS c 1).run { max := 1 } [.connect, .connect]).map World.count = some 2 := by decide
+
+/-- `loopSend` without a deferred `quit`: a local Close stops the send loop and nothing else -/
+theorem witness_send_without_deferred_quit :
+    let c : Cfg := { Cfg.good with sendDefers := .recoveryOnly }
+    let s := events c Sess.init [.close]
+    quiescent c s ∧ s.exits = 0 ∧ s.closes = 0 ∧ s.recvPc = .reading ∧ s.sendPc = .done := by decide
+
+/-- `loopReceive` without a deferred `recovery`: a handler panic escapes the goroutine -/
+theorem witness_recv_without_recovery :
+    let c : Cfg := { Cfg.good with recvDefers := .quitOnly }
+    (events c Sess.init [.handlerPanic]).crashed = true := by decide
+
+/-- `quit` that does not close the connection: after a local Close the read loop never stops -/
+theorem witness_quit_without_conn_close :
+    let c : Cfg := { Cfg.good with quitCloseConn := false }
+    let s := events c Sess.init [.close]
+    quiescent c s ∧ s.exits = 1 ∧ s.recvPc = .reading := by decide
+
+/-- `quit` that does not close the queue: after a read error the send loop never stops -/
+theorem witness_quit_without_queue_close :
+    let c : Cfg := { Cfg.good with quitCloseQ := false }
+    let s := events c Sess.init [.readFail]
+    quiescent c s ∧ s.exits = 1 ∧ s.sendPc = .idle := by decide
+
+/-- the order of the two defers does not matter (a deferred `recovery` recovers, then `quit` still runs) -/
+example : Proved { Cfg.good with sendDefers := .quitRecovery, recvDefers := .quitRecovery } := by decide
 
 end Nv.C16
